@@ -41,7 +41,7 @@ COMPONENTS = {
 FAULT_KINDS = ["preemption_between_lines", "sibling_instance_created", "setattr_attempt", "delattr_attempt", "source_list_mutation", "returned_value_mutation_attempt"]
 PROBES = ["first_use_by_two_caller_threads", "receive_buffer_reused_after_deserialize", "two_caller_threads_interleaved", "looked_at_like_a_python_object", "snapshot_unavailable", "member_unreadable_before_assignment", "serialize_into_shared_writer", "twin_instance_compared", "reincarnated_instance_compared", "serialize_into_nonempty_writer", "unserializable_instance_observed", "invalid_instance", "live_sequence_view_argument", "packet_write_method", "serialize_into_sanitising_writer", "array_element_mutation_attempt", "array_of_structs", "optional_array_present", "blob_on_deserialized_instance", "case_data_mutated_through_parent",
           "one_shot_iterator_argument", "nested_instance_setattr", "byte_size_setattr", "first_serialize_failed_skipped",
-          "tree_rejected", "returned_value_was_mutable", "arguments_changed_before_first_read", "refused_serialize_then_looked"]
+          "tree_rejected", "returned_value_was_mutable", "serialized_read_serialized", "arguments_changed_before_first_read", "refused_serialize_then_looked"]
 
 
 def generate(streams, tier):
@@ -716,6 +716,23 @@ def blind_probes(te, case, res, tr):
         after = repr(inst.obj)
     except Exception as e:  # noqa
         after = f"{type(e).__name__}: {e}"
+    if before == after and outcome == "successful":
+        # (c) serialized before anything was read, then every getter read once, then serialized again
+        try:
+            inst = Instance(te, cls_name, "ctor", copy.deepcopy(val))
+            b1 = inst.serialize()
+            inst.snapshot()
+            try:
+                b2 = inst.serialize()
+            except Exception as e:  # noqa
+                b2 = f"{type(e).__name__}: {e}"
+            res.count("probe.serialized_read_serialized")
+            if b1 != b2:
+                return viol("read-changed-serialization", "ctor",
+                            f"{cls_name}: serialized to {b1.hex()} before any getter was read; after reading every getter once "
+                            f"it serializes as {b2.hex() if isinstance(b2, bytes) else b2!r}")
+        except Exception:  # noqa
+            pass
     if before != after:
         return viol("serialize-changed-instance", outcome,
                     f"{cls_name}: repr before a {outcome} serialize: {before[:300]}; after: {after[:300]}")
